@@ -309,6 +309,9 @@ type Op struct {
 	HG       string // HgOk, HgDeny, HgFail
 	BA       string // BaApprove ...
 	Resources []string `json:",omitempty"` // `resource` parameters of a token request
+	// jwt-bearer: the `assertion` parameter as sent.  "" = absent (AsNone); "ok:<sub>" = the scripted
+	// HandleJWTBearerGrantAssertionFunc answers subject <sub> (AsOk); anything else = it refuses (AsBad)
+	Assertion string `json:",omitempty"`
 	// query
 	Tok       PTok
 	Allowed   bool
@@ -332,8 +335,9 @@ func (o Op) coq() string {
 	case "Par":
 		return fmt.Sprintf("OpPar (mkPReq %s %s %s)", o.Cred.coq(), o.Params.coq(), o.Bind.coq())
 	case "Token":
-		return fmt.Sprintf("OpToken %s (mkTReq %s %s %s %s %s %s %s %s %s %s %s)", grantCoq[o.Grant], o.Cred.coq(), o.Bind.coq(),
-			cS(o.Scope), cN(o.Code), cS(o.Redirect), cN(o.Refresh), o.Verifier.coq(), cN(o.AuthReq), o.HG, o.BA, cList(o.Resources, cS))
+		return fmt.Sprintf("OpToken %s (mkTReq %s %s %s %s %s %s %s %s %s %s %s %s)", grantCoq[o.Grant], o.Cred.coq(), o.Bind.coq(),
+			cS(o.Scope), cN(o.Code), cS(o.Redirect), cN(o.Refresh), o.Verifier.coq(), cN(o.AuthReq), o.HG, o.BA, cList(o.Resources, cS),
+			assertionCoq(o.Assertion))
 	case "Introspect":
 		return fmt.Sprintf("OpIntrospect (mkQReq %s %s %s)", o.Cred.coq(), o.Tok.coq(), cB(o.Allowed))
 	case "Revoke":
@@ -354,6 +358,17 @@ func (o Op) coq() string {
 		return "OpTick " + cZ(o.D)
 	}
 	panic("op kind " + o.Kind)
+}
+
+// the model's view of an `assertion` parameter (Token.v assertion)
+func assertionCoq(a string) string {
+	switch {
+	case a == "":
+		return "AsNone"
+	case strings.HasPrefix(a, "ok:"):
+		return "(AsOk " + cS(strings.TrimPrefix(a, "ok:")) + ")"
+	}
+	return "AsBad"
 }
 
 // ---- observations ----
